@@ -146,17 +146,22 @@ def readAll (places : List Region) : Accesses := ⟨places, [], []⟩
 /-- `gate_application` (mod.rs:1094-1096) -/
 def gateApplication (params : List E) : Accesses := readAll (memRefsAll params)
 
-/-- the `for (argument, parameter) in zip(arguments, parameters)` loop of
-`Call::default_memory_accesses` (extern_call.rs:1034-1050): stops at the shorter of the two. -/
-def callZip : List Arg → List Bool → List Region × List Region
-  | a :: as, m :: ms =>
-    let (rs, ws) := callZip as ms
+/-- the `for argument in arguments` loop of `Call::default_memory_accesses`
+(extern_call.rs:1034-1054, as of `fix:` commit 8044518): EVERY remaining argument is visited;
+`parameters.next()` advances in step and an argument beyond the parameters is not mutable
+(`parameters.next().is_some_and(|p| p.mutable)`). -/
+def callLoop : List Arg → List Bool → List Region × List Region
+  | [], _ => ([], [])
+  | a :: as, ms =>
+    let mutable := match ms with
+      | m :: _ => m
+      | [] => false
+    let (rs, ws) := callLoop as ms.tail
     match a with
-    | .memref r | .ident r => (r :: rs, if m then r :: ws else ws)
+    | .memref r | .ident r => (r :: rs, if mutable then r :: ws else ws)
     | .immediate => (rs, ws)
-  | _, _ => ([], [])
 
-/-- `Call::default_memory_accesses` (extern_call.rs:1004-1056). -/
+/-- `Call::default_memory_accesses` (extern_call.rs:1004-1060). -/
 def callAccesses (sigs : Sigs) (name : String) (args : List Arg) : Except Err Accesses :=
   match sigs.lookup name with
   | Option.none => .error (.noMatchingExtern name)
@@ -169,17 +174,18 @@ def callAccesses (sigs : Sigs) (name : String) (args : List Arg) : Except Err Ac
         | .immediate :: rest => ([], rest)
         | [] => ([], [])
       else ([], args)
-    let (rs, ws) := callZip rest sig.params
+    let (rs, ws) := callLoop rest sig.params
     .ok ⟨ret ++ rs, ret ++ ws, []⟩
 
 /-- the `GateDefinition` arm (mod.rs:1230-1247) -/
 def gateSpecAccesses : GateSpec → Accesses
   | .matrix rows => readAll (rows.map memRefsAll).flatten
-  | .permutation | .pauliSum _ => Accesses.none
+  | .permutation => Accesses.none
+  | .pauliSum termExprs => readAll (memRefsAll termExprs)   -- `fix:` commit 595a980
   | .sequence gates => (gates.map gateApplication).foldl Accesses.union Accesses.none
 
 mutual
-/-- `DefaultHandler::memory_accesses`, the match at mod.rs:1100-1306 (arms in source order). -/
+/-- `DefaultHandler::memory_accesses`, the match at mod.rs:1122-1345 (arms in source order). -/
 def memoryAccesses (sigs : Sigs) : Instr → Except Err Accesses
   | .convert dst src => .ok (likeMove dst [src])
   | .move dst src => .ok (likeMove dst (accessOpt src))
@@ -203,7 +209,8 @@ def memoryAccesses (sigs : Sigs) : Instr → Except Err Accesses
   | .waveformDefinition m => .ok (readAll (memRefsAll m))
   | .load dst src off => .ok ⟨[src, off], [dst], []⟩
   | .store dst off src => .ok ⟨accessesWithOperand off src, [dst], []⟩
-  | .declaration _ _ | .fence | .frameDefinition _ | .halt | .wait | .include | .jump | .label | .nop
+  | .frameDefinition attrExprs => .ok (readAll (memRefsAll attrExprs))   -- `fix:` commit 9c5e66f
+  | .declaration _ _ | .fence | .halt | .wait | .include | .jump | .label | .nop
   | .pragma | .reset | .swapPhases => .ok Accesses.none
 /-- `instructions.iter().map(|i| self.memory_accesses(sigs, i)).fold_ok(init, MemoryAccesses::union)`:
 stops at the first error. -/
